@@ -1,10 +1,6 @@
 // replay for property C10, harness validation::vehicles::verif_kani_proofs::c10_shift_time_windows_n2 (crate vrp-pragmatic, proof module vehicles)
 // failed: assertion failed: accepted == expected @ vehicles_proofs.rs:47
 // run: /verif/check --replay /verif/replays/C10/c10_shift_time_windows_n2.rs
-/// Test generated for harness `validation::vehicles::verif_kani_proofs::c10_shift_time_windows_n2` 
-///
-/// Check for `cover`: "accepted-within-shift"
-
 #[test]
 fn kani_concrete_playback_c10_shift_time_windows_n2_12684297909493614014() {
     let concrete_vals: Vec<Vec<u8>> = vec![
@@ -31,10 +27,6 @@ fn kani_concrete_playback_c10_shift_time_windows_n2_12684297909493614014() {
     ];
     kani::concrete_playback_run(concrete_vals, c10_shift_time_windows_n2);
 }
-
-/// Test generated for harness `validation::vehicles::verif_kani_proofs::c10_shift_time_windows_n2` 
-///
-/// Check for `cover`: "rejected"
 
 #[test]
 fn kani_concrete_playback_c10_shift_time_windows_n2_4587071746929726521() {
